@@ -7,8 +7,11 @@
    adds one level per link, so the depth of a value can be the number of literal positions of the environment.  The
    bound [depth_bound W d] = max (context depth, provider-constant depth) + sum over the root and the loadable
    definitions of (number of expression positions + 1) is computed from the text of the world; the condition is
-   [depth_bound W d < big_fuel] (= 4096).  The inner uses of big_fuel (containsUnknowns / containsSecrets = export,
-   toString) never set the flag; C07_inner_* record that above the depth they are exact / fuel-independent as well. *)
+   [depth_bound W d < big_fuel] (= 4096).  The bound is on DEPTH only: chains may be arbitrarily long (the tower of
+   Properties/C07_helpers.v has 8193 layers and satisfies the hypotheses with depth_bound = 35).  The inner helpers no
+   longer use a constant fuel (Properties/C07_helpers.v: each is called with a fuel computed from its argument and proved
+   sufficient; the merged view inside the evaluator, [export_t], is total); C07_inner_* are kept: below the depth
+   [export big_fuel] and [export_t] agree, and [to_string] is fuel-independent. *)
 From Verif Require Import Base.Bytes Model.Chain Model.GoText Model.Envelope Model.Eval
   Proofs.EvalTotalSyntax Proofs.EvalTotalRecover Proofs.EvalTotalBound Proofs.ChainAlgebraExport
   Proofs.RefSem2Depth Proofs.RefSem2DepthEval Proofs.RefSem2DepthEnv Proofs.RefSem2Clean.
